@@ -16,39 +16,63 @@ Every decode of the real code runs
                       the result has at most steps+1 nodes and its strings together at most len(data)
                       characters.  MemoryError / budget exceeded / alarm = violation.
 """
+import gc
 import json
 import os
 import resource
 import signal
 import struct
+import subprocess
 import sys
+import time
 
 STREAMS = ['unmarshal-valid-truncated-mutated', 'message-truncated-mutated', 'lying-lengths',
-           'hostile-signatures', 'hostile-message-signature', 'huge-lengths', 'random-bytes']
-THEOREMS = ['tables_good', 'unmarshal_fuel_adequate', 'unmarshal_steps_linear', 'parseMessage_total',
-            'result_size_bounded', 'prefix_array_loop_never_terminates']
+           'hostile-signatures', 'hostile-message-signature', 'huge-lengths', 'random-bytes', 'scaling']
+THEOREMS = ['tables_good', 'unmarshal_fuel_adequate', 'unmarshal_steps_linear', 'unmarshal_work_linear',
+            'unmarshal_depth_bounded', 'result_size_bounded', 'result_chars_bounded', 'unmarshal_bounded',
+            'parseMessage_total', 'parseMessage_work_linear', 'prefix_array_loop_never_terminates']
 TRUSTED_BASE = [
     'Python semantics mirrored by hand in Wire/Cost.lean and validated only by the streams: struct.unpack_from '
     'bounds rule (offset + size <= len), slice clamping, codecs.decode utf-8/ascii (Wire/Utf8.lean), generator '
     'protocol of genCompleteTypes incl. PEP 479, dict construction from a{..} items (IndexError / unhashable key), '
-    'truthiness of the signature header field',
-    'tools/tables/c05_wire.py: alignment table, kind of every unmarshallers entry (fixed-size readers probed at '
-    'run time), _headerFormat, _mtype keys, header code of `signature`',
-    'the invocation counter (wrapping the entries of marshal.unmarshallers) is the measure of work; per-invocation '
-    'cost is O(signature length) (slicing, find_end) and is not modelled',
+    'truthiness of the signature header field; the literals 255 (signature field), b"l" = 108, 8 (header padding), '
+    'widths 4/4/1 of the three length fields',
+    'tools/tables/c05_wire.py: alignment table, kind of every unmarshallers entry (classified by behaviour on probes, '
+    'incl. lying lengths that pin width / byte order / unsignedness), _headerFormat, _mtype keys, header code of `signature`',
+    'the measure of work: `steps` = invocations of marshal.unmarshallers entries (counted by wrapping them), `work` = steps '
+    '+ len(ct) per invocation + data bytes sliced by string / signature reads + characters genCompleteTypes touches per '
+    'piece (Cost.firstCost, mirrored by piece_cost).  Unit costs of CPython primitives (a slice is O(its length), '
+    'list.append amortised O(1), struct.unpack_from O(1)) are assumed; they are checked only by the CPU-time scaling '
+    'oracle of the thorough tier (n vs 4n up to 1 MB)',
+    'the factor K = 257 of the step budget is a constant derived from the Lean proof (longest wire signature + 2), not from '
+    'the property statement; the worst generated case needs ~16 invocations per byte',
 ]
 ASSUMPTIONS = [
-    'oobFDs = [] (a UNIX_FD value decodes to None); descriptor passing is C20',
+    "reading of 'never recurses without bound': nesting depth is bounded by the INPUT (theorem unmarshal_depth_bounded: "
+    '<= |sig| + bytes; through variants one level per 3 bytes), not by a constant; on CPython a decode nested deeper than '
+    '~330 levels (1 KB of nested variants) answers RecursionError.  RecursionError counts as an ordinary exception "that '
+    'costs the peer only its own connection": it propagates out of parseMessage to protocol.py rawDBusMessageReceived -> '
+    'dataReceived (bus.py: BusProtocol.rawDBusMessageReceived likewise), where Twisted drops the connection.  Those '
+    'landing sites are not modelled here (framing is C04); the harness checks that importing txdbus does not raise '
+    'sys.getrecursionlimit()',
+    'oobFDs: the empty list, a list of descriptor numbers (also shorter than the indices used) and None (the public '
+    "default of marshal.unmarshal: 'h' then raises TypeError) are modelled and run; descriptor passing itself is C20",
     'offsets are non-negative; the data object is bytes',
-    "Python's recursion limit: a decode whose frame estimate comes within 80 frames of the limit may answer "
-    'RecursionError instead of the modelled outcome - an exception, allowed by the property',
-    'a signature header field that is not a str, or longer than 255 characters, is rejected by the repaired '
-    'parseMessage; on a tree without that repair the model abstains for non-str values (oracle only)',
+    "Python's recursion limit is canonicalised: a decode whose frame estimate comes within 80 frames of the limit may "
+    'answer RecursionError instead of the modelled outcome (frame estimate measured on CPython 3.12)',
+    'a signature header field that is not a str, or longer than 255 characters, is rejected by the repaired parseMessage',
+    'S3 compares ok / error, consumed bytes and - when both return - steps, work (equal) and result size; when both raise, '
+    'the implementation may stop earlier than the model and the exception class is only recorded (ctx.stat '
+    "'error-class-drift'): hardening the decoder (MarshallingError instead of struct.error, earlier rejection) is not a "
+    'disagreement.  A hardening that REJECTS input the model decodes (array > 2^26, missing NUL) is: the model mirrors the '
+    'code and has to follow such a change',
 ]
-RULE = ('valid (signature, value) pairs and valid messages are generated from the repo\'s own marshaller, then every '
-        'truncation and single-byte mutation (all of them in the thorough tier, a seeded sample in the quick tier); '
-        'length fields overwritten with boundary values; grammar-directed hostile signatures at top level, inside '
-        'variants and as body signature; distinct = distinct (stream, entry point, signature, data); non-trivial = '
+RULE = ('valid (signature, value) pairs (13 basic codes incl. h, variants, arrays, dicts, structs; depth <= 3) and valid '
+        'messages in both byte orders are generated from the repo\'s own marshaller, then: every truncation; per byte position '
+        'about 10 substitute values (bit flip, +-1, 0, 255, type-code characters) - all positions in the thorough tier, a seeded '
+        'sample in the quick tier; every length field (found by running the real decoder) replaced by 26 boundary values; '
+        'grammar-directed hostile signatures at top level, inside variants and as body signature; large inputs (6 KB with the '
+        'model, 16 KB - 1 MB oracle-only at n and 4n); distinct = distinct (stream, entry point, signature, data); non-trivial = '
         'the decode performs at least 2 unmarshaller invocations')
 
 RECURSION_ROOM = 1000
@@ -75,26 +99,82 @@ class Alarm(Abort):
     pass
 
 
+def piece_cost(rest_len, piece):
+    """Mirror of Cost.firstCost: what next() of genCompleteTypes touches to produce `piece` from a remaining
+    signature of length `rest_len`."""
+    k = 0
+    while k < len(piece) and piece[k] == 'a':
+        k += 1
+    inner = piece[k:]
+    cost = 2 * len(inner) if inner[:1] in ('(', '{') else 1
+    for j in range(k):
+        cost += (rest_len - j - 1) + (len(piece) - j)
+    return cost
+
+
 class Counter:
+    """Counts invocations of the entries of marshal.unmarshallers (`n`), and `work` = the mirror of Cost's `work`:
+    per invocation 1 + len(ct) + the data bytes a string / signature / variant-signature read slices (computed from
+    the arguments), per piece produced by the top-level genCompleteTypes generator `piece_cost`."""
+
     def __init__(self, marshal):
         self.marshal = marshal
         self.n = 0
+        self.work = 0
         self.budget = None
         self.saved = None
+        self.saved_gen = None
+        self.in_gen = False
 
     def install(self):
         self.saved = dict(self.marshal.unmarshallers)
         me = self
 
-        def wrap(f):
+        def wrap(key, f):
             def counted(ct, data, offset, lendian, oobFDs):
                 me.n += 1
                 if me.budget is not None and me.n > me.budget:
                     raise BudgetExceeded()
+                w = 1 + len(ct)
+                try:
+                    n = len(data)
+                    if key in 'so' and 0 <= offset and offset + 4 <= n:
+                        slen = struct.unpack_from('<I' if lendian else '>I', data, offset)[0]
+                        w += max(0, min(slen, n - offset - 4))
+                    elif key in 'gv' and 0 <= offset and offset + 1 <= n:
+                        w += max(0, min(data[offset], n - offset - 1))
+                except Exception:
+                    pass
+                me.work += w
                 return f(ct, data, offset, lendian, oobFDs)
             return counted
         for k, f in self.saved.items():
-            self.marshal.unmarshallers[k] = wrap(f)
+            self.marshal.unmarshallers[k] = wrap(k, f)
+        orig = self.saved_gen = self.marshal.genCompleteTypes
+
+        def gen(sig):
+            if me.in_gen:                 # the nested generator of a leading 'a': its cost is part of the piece's
+                return orig(sig)
+
+            def pieces():
+                it = orig(sig)
+                pos = 0
+                while True:
+                    me.in_gen = True
+                    try:
+                        piece = next(it)
+                    except StopIteration:
+                        return
+                    finally:
+                        me.in_gen = False
+                    try:
+                        me.work += piece_cost(len(sig) - pos, piece)
+                        pos += len(piece)
+                    except Exception:
+                        pass
+                    yield piece
+            return pieces()
+        self.marshal.genCompleteTypes = gen
 
     def restore(self):
         if self.saved is not None:
@@ -102,6 +182,10 @@ class Counter:
                 if k in self.saved:
                     self.marshal.unmarshallers[k] = self.saved[k]
             self.saved = None
+        if self.saved_gen is not None:
+            self.marshal.genCompleteTypes = self.saved_gen
+            self.saved_gen = None
+        self.in_gen = False
 
 
 def _on_alarm(signum, frame):
@@ -145,6 +229,8 @@ def guarded(counter, budget, fn):
     """Run fn() instrumented.  Returns dict(status, steps, value) ; status: ok | err:<Class> | BUDGET | ALARM | MEMORY."""
     global ALARM_S
     counter.n = 0
+    counter.work = 0
+    counter.in_gen = False
     counter.budget = budget
     old_limit = sys.getrecursionlimit()
     old_handler = signal.signal(signal.SIGALRM, _on_alarm)
@@ -155,6 +241,7 @@ def guarded(counter, budget, fn):
     if hard != resource.RLIM_INFINITY:
         cap = min(cap, hard)
     resource.setrlimit(resource.RLIMIT_AS, (cap, hard))
+    t0 = time.process_time()
     try:
         try:
             v = fn()
@@ -174,7 +261,7 @@ def guarded(counter, budget, fn):
         signal.signal(signal.SIGALRM, old_handler)
         sys.setrecursionlimit(old_limit)
         counter.budget = None
-    return {'status': st, 'steps': counter.n, 'value': v}
+    return {'status': st, 'steps': counter.n, 'work': counter.work, 'value': v, 'cpu': time.process_time() - t0}
 
 
 # ------------------------------------------------------------------ encoding of cases for the driver
@@ -186,16 +273,25 @@ def byteshex(b):
     return bytes(b).hex() if b else '-'
 
 
+def fds_token(fds):
+    if fds is None:
+        return 'N'
+    return ','.join(str(x) for x in fds) if fds else '-'
+
+
 def case_line(c):
     if c['op'] == 'u':
-        return 'u 1 %d %d %s %s' % (1 if c['le'] else 0, c['off'], strhex(c['sig']), byteshex(c['data']))
-    return 'p 1 %s' % byteshex(c['data'])
+        return 'u 1 %d %d %s %s %s' % (1 if c['le'] else 0, c['off'], fds_token(c.get('fds', [])), strhex(c['sig']),
+                                       byteshex(c['data']))
+    return 'p 1 %s %s' % (fds_token(c.get('fds', [])), byteshex(c['data']))
 
 
 def case_json(c):
     d = {'op': c['op'], 'data': bytes(c['data']).hex()}
     if c['op'] == 'u':
         d.update(sig=c['sig'], off=c['off'], le=bool(c['le']))
+    if c.get('fds', []) != []:
+        d['fds'] = c['fds']
     return d
 
 
@@ -203,11 +299,15 @@ def case_from_json(d):
     c = {'op': d['op'], 'data': bytes.fromhex(d['data'])}
     if d['op'] == 'u':
         c.update(sig=d['sig'], off=int(d.get('off', 0)), le=bool(d.get('le', True)))
+    if 'fds' in d:
+        c['fds'] = d['fds']
     return c
 
 
 # ------------------------------------------------------------------ proved bounds (mirrors Cost.stepBound / parseStepBound)
 def step_bound(c):
+    """Cost.stepBound / Cost.parseStepBound: the factor K = (longest signature in play) + 2 = 257 for wire signatures is
+    a constant derived from the Lean proof, not from the property statement; the worst generated case needs ~16 per byte."""
     n = len(c['data'])
     if c['op'] == 'u':
         L = max(len(c['sig']), 255)
@@ -215,11 +315,21 @@ def step_bound(c):
     return HEADER_LEN + 255 + (max(HEADER_LEN, 255) + 2) * n + 2
 
 
+def work_bound(c):
+    """Cost.workBound / Cost.parseWorkBound."""
+    n = len(c['data'])
+    if c['op'] == 'u':
+        L = max(len(c['sig']), 255)
+        return ((L + 1) ** 2 + L + 1) * step_bound(c) + max(n - c['off'], 0) + (L + 1) ** 2
+    L = max(HEADER_LEN, 255)
+    return ((L + 1) ** 2 + L + 1) * step_bound(c) + 3 * n + (L + 1) ** 2
+
+
 HEADER_LEN = 11     # set from message._headerFormat in run()
 
 
 # ------------------------------------------------------------------ generators: valid values
-BASIC = 'ybnqiuxtdsog'
+BASIC = 'ybnqiuxtdsogh'
 
 
 def gen_type(rng, depth):
@@ -262,6 +372,8 @@ def gen_value(rng, marshal, t):
         return rng.choice([0, -1, 2 ** 63 - 1, -2 ** 63, rng.randrange(-2 ** 63, 2 ** 63)])
     if c == 't':
         return rng.choice([0, 2 ** 64 - 1, rng.randrange(2 ** 64)])
+    if c == 'h':
+        return rng.choice([0, 3, 7, 255])
     if c == 'd':
         return rng.choice([0.0, -0.0, 1.5, -2.25, 1e300, float('inf')])
     if c == 's':
@@ -293,29 +405,43 @@ def gen_value(rng, marshal, t):
 
 
 def gen_valid(rng, marshal):
-    """(sig, le, off, data) with data[off:] a valid encoding of random values of sig."""
+    """(sig, le, off, data, fds) with data[off:] a valid encoding of random values of sig; fds = the descriptor list
+    the UNIX_FD values index into (as the decoder gets it), sometimes cut short, empty or None (the public default)."""
     k = rng.choice([1, 1, 2, 3])
     types = [gen_type(rng, rng.choice([0, 1, 2, 3])) for _ in range(k)]
     sig = ''.join(types)
     vals = [gen_value(rng, marshal, t) for t in types]
     le = rng.random() < 0.7
     off = rng.choice([0, 0, 0, 8, 16, 3, 5])
-    n, chunks = marshal.marshal(sig, vals, off, le)
-    return sig, le, off, b'\0' * off + b''.join(chunks)
+    fds = []
+    n, chunks = marshal.marshal(sig, vals, off, le, fds)
+    if fds:
+        r = rng.random()
+        if r < 0.15:
+            fds = None
+        elif r < 0.3:
+            fds = fds[:rng.randrange(len(fds))]
+    elif rng.random() < 0.05:
+        fds = None
+    return sig, le, off, b'\0' * off + b''.join(chunks), fds
 
 
 def gen_message(rng, marshal, message):
     sigs = [None, 'i', 's', 'as', 'a{sv}', '(is)', 'v', 'ay', 'a(ii)', 'xd', 'aai', 'sa{s(iv)}', 'g', 'o']
     sig = rng.choice(sigs)
+    kind = rng.randrange(4)
+    fds = None
+    if kind == 0 and rng.random() < 0.15:
+        sig = rng.choice(['h', 'ah', '(sh)', 'a{sh}'])
+        fds = []
     body = None
     if sig is not None:
         body = [gen_value(rng, marshal, t) for t in split_types(marshal, sig)]
-    kind = rng.randrange(4)
     if kind == 0:
         m = message.MethodCallMessage('/org/x/Obj', 'Method', interface=rng.choice([None, 'org.x.Iface']),
                                       destination=rng.choice([None, 'org.x.Dest', ':1.42']),
                                       signature=sig, body=body, expectReply=rng.random() < 0.5,
-                                      autoStart=rng.random() < 0.5)
+                                      autoStart=rng.random() < 0.5, oobFDs=fds)
     elif kind == 1:
         m = message.MethodReturnMessage(rng.randrange(1, 2 ** 32), body=body, destination=rng.choice([None, ':1.7']),
                                         signature=sig)
@@ -325,9 +451,14 @@ def gen_message(rng, marshal, message):
     else:
         m = message.SignalMessage('/org/x/Obj', 'Changed', 'org.x.Iface', signature=sig, body=body)
     raw = m.rawMessage
-    if rng.random() < 0.4:      # the same message in big-endian (message._marshal always encodes the body little-endian)
+    if fds is None and rng.random() < 0.4:      # the same message in big-endian (message._marshal always encodes the body little-endian)
         raw = big_endian_message(marshal, message, m)
-    return raw
+    if fds:
+        r = rng.random()
+        dec = None if r < 0.15 else fds[:rng.randrange(len(fds))] if r < 0.3 else list(fds)
+    else:
+        dec = None if rng.random() < 0.03 else []
+    return raw, dec
 
 
 # ------------------------------------------------------------------ generators: hostile signatures
@@ -560,6 +691,39 @@ def resign(raw, rng, k):
     return out
 
 
+# ------------------------------------------------------------------ scaling shapes (large inputs)
+def scaling_case(shape, nbytes, fault):
+    """a valid input of about `nbytes` bytes of the given shape; fault=True spoils its very end (so that a decoder that
+    retries / re-scans on failure does all its extra work)."""
+    if shape == 'header-fields':
+        k = max(nbytes // 8, 1)
+        e = Enc(True)
+        e.b += b'l\x01\x00\x01'
+        e.u32(0)
+        e.u32(1)
+        e.u32(8 * k - 3)
+        e.b += (b'\xc8\x01y\x00\x07\x00\x00\x00') * k
+        raw = bytes(e.b[:-3]) + b'\0' * 3         # the last field ends after its value; 3 bytes of header padding
+        if fault:
+            raw = raw[:-4]
+        return {'op': 'p', 'data': raw}
+    elem = {'ay': b'\x07', 'as': struct.pack('<I', 3) + b'abc\0', 'a(yv)': b'\x05\x01y\0\x09\0\0\0',
+            'a{sv}': struct.pack('<I', 1) + b'k\0\x01i\0\0\0\0' + struct.pack('<I', 7), 'av': b'\x01y\0\x09',
+            'a(y()()()())': b'\x01' + b'\0' * 7}[shape]
+    k = max(nbytes // len(elem), 1)
+    trailing = {'a(yv)': 3}.get(shape, 0)      # the last element carries no alignment padding
+    body = (elem * k)[:len(elem) * k - trailing]
+    alen = len(body)
+    if fault:
+        body = body[:-2] + (b'\xff\0' if shape == 'as' else b'')
+    pad8 = b'\0' * 4 if shape[1] in '({' else b''
+    data = struct.pack('<I', alen) + pad8 + body
+    return {'op': 'u', 'sig': shape, 'le': True, 'off': 0, 'data': data}
+
+
+SCALING_SHAPES = ['ay', 'as', 'a(yv)', 'a{sv}', 'av', 'a(y()()()())', 'header-fields']
+
+
 # ------------------------------------------------------------------ mutations
 LENGTH_VALUES = [0, 1, 2, 3, 4, 7, 8, 9, 15, 16, 255, 256, 0x7fffffff, 0x80000000, 0xfffffffe, 0xffffffff]
 
@@ -683,12 +847,13 @@ class Runner:
 
     def impl(self, c):
         bound = step_bound(c)
+        fds = c.get('fds', [])
         if c['op'] == 'u':
-            fn = lambda: self.marshal.unmarshal(c['sig'], c['data'], c['off'], c['le'], [])
+            fn = lambda: self.marshal.unmarshal(c['sig'], c['data'], c['off'], c['le'], fds)
         else:
-            fn = lambda: self.message.parseMessage(c['data'], [])
+            fn = lambda: self.message.parseMessage(c['data'], fds)
         r = guarded(self.counter, bound + 1, fn)
-        obs = {'status': r['status'], 'steps': r['steps'], 'bound': bound}
+        obs = {'status': r['status'], 'steps': r['steps'], 'bound': bound, 'work': r['work'], 'cpu': r['cpu']}
         if r['status'] == 'ok':
             v = r['value']
             if c['op'] == 'u':
@@ -698,27 +863,32 @@ class Runner:
                 body = v.body if v.body is not None else []
                 obs['nodes'], obs['chars'] = nodes([body])
                 obs['hasbody'] = v.body is not None
+                obs['work'] += len(c['data'])        # rawHeader, rawPadding, rawBody: the message copied once
         return obs
 
     def judge(self, stream, c, obs, mline):
         ctx = self.ctx
         cj = case_json(c)
         st = obs['status']
+        cpu = obs.pop('cpu', None)
         ctx.case(stream, sample=cj if len(cj['data']) < 400 else None, nontrivial=obs['steps'] >= 2)
         ctx.impl_trace()
         ctx.stat('outcome=' + (st if not st.startswith('err:') else st))
-        ctx.stat('len<=%d' % next(b for b in (0, 8, 32, 128, 512, 4096, 1 << 40) if len(c['data']) <= b))
-        ctx.stat('steps<=%d' % next(b for b in (0, 1, 4, 16, 64, 256, 4096, 1 << 40) if obs['steps'] <= b))
-        # ---- S4: the property oracle, implementation only
+        ctx.stat('len<=%d' % next(b for b in (0, 8, 32, 128, 512, 4096, 65536, 1 << 40) if len(c['data']) <= b))
+        ctx.stat('steps<=%d' % next(b for b in (0, 1, 4, 16, 64, 256, 4096, 65536, 1 << 40) if obs['steps'] <= b))
+        # ---- S4: the property oracle, implementation only.  Everything is measured against the INPUT SIZE
+        # (step_bound / work_bound are linear in len(data) for signatures of bounded length), never against what this
+        # implementation happened to do: a decoder that reads an `ay` in one call is as good as one that dispatches per byte.
         what = 'parseMessage' if c['op'] == 'p' else 'unmarshal(%r)' % (c['sig'][:40],)
+        nbytes = len(c['data'])
         if st == 'ALARM':
             ctx.violation(self.key(c, 'decode-does-not-terminate'),
-                          '%s did not finish within %d s on %d bytes' % (what, ALARM_S, len(c['data'])),
+                          '%s did not finish within %d s on %d bytes' % (what, ALARM_S, nbytes),
                           inp=cj, observed=obs, expected='return or exception within %d invocations' % obs['bound'])
         elif st == 'BUDGET':
             ctx.violation(self.key(c, 'decode-work-not-linear'),
                           '%s exceeded %d unmarshaller invocations on %d bytes of input'
-                          % (what, obs['bound'], len(c['data'])),
+                          % (what, obs['bound'], nbytes),
                           inp=cj, observed=obs, expected='return or exception within %d invocations' % obs['bound'])
         elif st == 'MEMORY':
             ctx.violation(self.key(c, 'decode-memory'), '%s raised MemoryError' % what, inp=cj, observed=obs,
@@ -727,26 +897,34 @@ class Runner:
             # every nesting level costs a signature character or at least 2 data bytes (a variant's length byte and
             # one signature character) and at most 3 frames; anything deeper is recursion the input does not pay for
             siglen = len(c['sig']) if c['op'] == 'u' else 255 + HEADER_LEN
-            levels = siglen + (len(c['data']) - (c['off'] if c['op'] == 'u' else 0)) // 2 + 2
+            levels = siglen + (nbytes - (c['off'] if c['op'] == 'u' else 0)) // 2 + 2
             if 3 * levels + GREY < RECURSION_ROOM:
                 ctx.violation(self.key(c, 'recursion-not-justified-by-input'),
                               '%s hit the recursion limit on %d bytes of input (at most %d nesting levels)'
-                              % (what, len(c['data']), levels),
+                              % (what, nbytes, levels),
                               inp=cj, observed=obs, expected='nesting bounded by signature length + data length / 2')
         elif st == 'ok':
-            if obs['nodes'] > obs['steps'] + 1 or obs['chars'] > len(c['data']):
+            if obs['nodes'] > obs['bound'] + 1 or obs['chars'] > nbytes:
                 ctx.violation(self.key(c, 'result-size-unrelated-to-input'),
-                              '%s built %d nodes / %d characters from %d invocations / %d bytes'
-                              % (what, obs['nodes'], obs['chars'], obs['steps'], len(c['data'])),
-                              inp=cj, observed=obs, expected='nodes <= steps + 1, characters <= bytes')
-        # ---- S3: correspondence with the model
+                              '%s built %d nodes / %d characters from %d bytes'
+                              % (what, obs['nodes'], obs['chars'], nbytes),
+                              inp=cj, observed=obs,
+                              expected='nodes <= %d (linear in the input size), characters <= bytes' % (obs['bound'] + 1))
+        if st not in ('ALARM', 'BUDGET', 'MEMORY') and obs['work'] > work_bound(c):
+            ctx.violation(self.key(c, 'decode-work-not-linear'),
+                          '%s touched %d characters / bytes (invocations + signature scans + data slices) on %d bytes of input'
+                          % (what, obs['work'], nbytes), inp=cj, observed=obs, expected='work <= %d' % work_bound(c))
+        # ---- S3: correspondence with the model.  Compared: ok / error, consumed bytes, and - when both return -
+        # invocation count and work (equal), result nodes <= model size.  When both raise: the implementation may stop
+        # EARLIER than the model (steps, work <=) and the exception class is recorded, not compared: a decoder hardened to
+        # answer MarshallingError where it answers struct.error today still satisfies C05 and stays quiet here.
         if mline is None:
             return
         m = mline.split()
         if c['op'] == 'u':
-            mst, mcons, msteps, mdepth, mframes, msize = m[0], int(m[1]), int(m[2]), int(m[3]), int(m[4]), int(m[5])
+            mst, mcons, msteps, mdepth, mframes, msize, mwork, mchars = [m[0]] + [int(x) for x in m[1:8]]
         else:
-            mst, msteps, mdepth, mframes, msize = m[0], int(m[1]), int(m[2]), int(m[3]), int(m[4])
+            mst, msteps, mdepth, mframes, msize, _mbody, mwork, mchars = [m[0]] + [int(x) for x in m[1:8]]
             mcons = None
         ctx.stat('depth<=%d' % next(b for b in (1, 2, 4, 8, 32, 128, 1 << 40) if mdepth <= b))
         if mst == 'fuel':
@@ -761,19 +939,73 @@ class Runner:
             ctx.disagree(stream, cj, mline, obs, detail='implementation did not finish within the proved bound')
             return
         bad = []
-        if mst != st:
+        if (mst == 'ok') != (st == 'ok'):
             bad.append('outcome')
-        if msteps != obs['steps']:
-            bad.append('steps')
-        if st == 'ok':
+        elif st == 'ok':
+            if msteps != obs['steps']:
+                bad.append('steps')
+            if mwork != obs['work']:
+                bad.append('work')
             if c['op'] == 'u' and mcons != obs['consumed']:
                 bad.append('consumed')
             if obs['nodes'] > msize + 1:
                 bad.append('size')
+            if obs['chars'] > mchars:
+                bad.append('chars')
+        else:
+            if mst != st:
+                ctx.stat('error-class-drift %s (model %s)' % (st, mst))
+            if obs['steps'] > msteps:
+                bad.append('steps-after-error')
+            if obs['work'] > mwork:
+                bad.append('work-after-error')
         if obs['steps'] > obs['bound']:
             bad.append('bound')
         if bad:
             ctx.disagree(stream, cj, mline, {k: v for k, v in obs.items()}, detail=','.join(bad))
+
+    def scaling(self, sizes, with_cpu):
+        """Model-independent: the same shape at n and 4n bytes must cost about 4 times as much - counted invocations and
+        counted work always, CPU time (gc off, best of two) only where asked (thorough tier)."""
+        ctx = self.ctx
+        self.counter.install()
+        gc_was = gc.isenabled()
+        gc.disable()
+        try:
+            for shape in SCALING_SHAPES:
+                for fault in (False, True):
+                    for n in sizes:
+                        obs = []
+                        for nb in (n, 4 * n):
+                            c = scaling_case(shape, nb, fault)
+                            o = self.impl(c)
+                            if with_cpu and o['status'] not in ('ALARM', 'BUDGET', 'MEMORY'):
+                                o['cpu'] = min(o['cpu'], self.impl(c)['cpu'])
+                            cpu = o.get('cpu')
+                            self.judge('scaling', c, dict(o), None)
+                            obs.append((c, o, cpu))
+                            gc.collect()
+                        (c1, o1, t1), (c4, o4, t4) = obs
+                        ctx.stat('scaling %s%s n=%d: steps x%.2f work x%.2f' % (
+                            shape, '+fault' if fault else '', n, o4['steps'] / max(o1['steps'], 1), o4['work'] / max(o1['work'], 1)))
+                        if any(o['status'] in ('ALARM', 'BUDGET', 'MEMORY') for o in (o1, o4)):
+                            continue        # already reported by judge
+                        inp = {'scaling': shape, 'fault': fault, 'n': n}
+                        if o4['steps'] > 4.4 * o1['steps'] + 64 or o4['work'] > 4.4 * o1['work'] + 1024:
+                            ctx.violation('decode-work-superlinear',
+                                          '%s%s: %d -> %d bytes (x4) costs %d -> %d invocations, %d -> %d units of work'
+                                          % (shape, ' with a fault at the end' if fault else '', len(c1['data']), len(c4['data']),
+                                             o1['steps'], o4['steps'], o1['work'], o4['work']),
+                                          inp=inp, observed={'small': o1, 'large': o4}, expected='at most x4.4')
+                        elif with_cpu and t1 is not None and t4 is not None and t4 > 10 * max(t1, 0.02):
+                            ctx.violation('decode-time-superlinear',
+                                          '%s%s: %d -> %d bytes (x4) costs %.3f s -> %.3f s CPU with the same x4 invocations'
+                                          % (shape, ' with a fault at the end' if fault else '', len(c1['data']), len(c4['data']), t1, t4),
+                                          inp=inp, observed={'small_cpu': t1, 'large_cpu': t4}, expected='at most x10 CPU time')
+        finally:
+            if gc_was:
+                gc.enable()
+            self.counter.restore()
 
     def key(self, c, base):
         if base not in ('decode-work-not-linear', 'decode-does-not-terminate', 'decode-memory'):
@@ -819,6 +1051,26 @@ class Runner:
             self.counter.restore()
 
 
+def recursion_limit_check(ctx):
+    """A tree that raises the interpreter's recursion limit at import makes "RecursionError after ~330 nesting levels"
+    (the bound this harness and the property's reading rely on) false; guarded() would hide it by setting its own limit."""
+    code = ('import sys; sys.path.insert(0, %r); a = sys.getrecursionlimit(); '
+            'import txdbus.marshal, txdbus.message, txdbus.protocol; print(a, sys.getrecursionlimit())' % (ctx.repo,))
+    try:
+        out = subprocess.run([sys.executable, '-c', code], stdout=subprocess.PIPE, stderr=subprocess.DEVNULL,
+                             timeout=120).stdout.decode().split()
+        before, after = int(out[0]), int(out[1])
+    except Exception as e:
+        ctx.note('recursion-limit check could not run: %r' % (e,))
+        return
+    ctx.stat('recursion-limit-after-import=%d' % after)
+    if after != before:
+        ctx.violation('recursion-limit-changed',
+                      'importing txdbus changes sys.getrecursionlimit() from %d to %d: nesting through variants '
+                      '(one level per 3 bytes) is then bounded only by the message size' % (before, after),
+                      inp={'op': 'import'}, observed={'before': before, 'after': after}, expected='unchanged')
+
+
 def run(ctx):
     global HEADER_LEN
     from txdbus import marshal, message
@@ -826,6 +1078,7 @@ def run(ctx):
     rng = ctx.rng
     thorough = ctx.tier == 'thorough'
     R = Runner(ctx, marshal, message)
+    recursion_limit_check(ctx)
 
     # ---- corpus first
     for name, d in ctx.corpus():
@@ -842,9 +1095,10 @@ def run(ctx):
     nvalid = ctx.scale(quick=150, thorough=1200)
     lim = None if thorough else 16
     for _ in range(nvalid):
-        sig, le, off, data = gen_valid(rng, marshal)
+        sig, le, off, data, fds = gen_valid(rng, marshal)
         ctx.stat('valid-sig-len=%d' % min(len(sig), 20))
-        base = {'op': 'u', 'sig': sig, 'le': le, 'off': off}
+        ctx.stat('fds=' + ('None' if fds is None else 'list' if fds else '[]'))
+        base = {'op': 'u', 'sig': sig, 'le': le, 'off': off, 'fds': fds}
         R.add('unmarshal-valid-truncated-mutated', dict(base, data=data))
         for d in truncations(data, rng, lim):
             if len(d) >= off:
@@ -853,7 +1107,7 @@ def run(ctx):
             R.add('unmarshal-valid-truncated-mutated', dict(base, data=d))
         for d in length_lies(data, le, rng, None if thorough else 4):
             R.add('lying-lengths', dict(base, data=d))
-        fields = length_fields(marshal, data, lambda: marshal.unmarshal(sig, data, off, le, []))
+        fields = length_fields(marshal, data, lambda: marshal.unmarshal(sig, data, off, le, fds))
         ctx.stat('length-fields', len(fields))
         for d in field_lies(data, le, fields):
             R.add('lying-lengths', dict(base, data=d))
@@ -867,18 +1121,19 @@ def run(ctx):
     nmsg = ctx.scale(quick=80, thorough=300)
     lim = None if thorough else 24
     for _ in range(nmsg):
-        raw = gen_message(rng, marshal, message)
-        R.add('message-truncated-mutated', {'op': 'p', 'data': raw})
+        raw, fds = gen_message(rng, marshal, message)
+        ctx.stat('fds=' + ('None' if fds is None else 'list' if fds else '[]'))
+        R.add('message-truncated-mutated', {'op': 'p', 'data': raw, 'fds': fds})
         for d in truncations(raw, rng, lim):
-            R.add('message-truncated-mutated', {'op': 'p', 'data': d})
+            R.add('message-truncated-mutated', {'op': 'p', 'data': d, 'fds': fds})
         for d in byte_mutations(raw, rng, lim):
-            R.add('message-truncated-mutated', {'op': 'p', 'data': d})
+            R.add('message-truncated-mutated', {'op': 'p', 'data': d, 'fds': fds})
         for d in length_lies(raw, raw[:1] == b'l', rng, None if thorough else 4):
-            R.add('lying-lengths', {'op': 'p', 'data': d})
-        fields = length_fields(marshal, raw, lambda: message.parseMessage(raw, []))
+            R.add('lying-lengths', {'op': 'p', 'data': d, 'fds': fds})
+        fields = length_fields(marshal, raw, lambda: message.parseMessage(raw, fds))
         ctx.stat('length-fields', len(fields))
         for d in field_lies(raw, raw[:1] == b'l', fields, extra=[(4, 4)]):      # + the body length of the fixed header
-            R.add('lying-lengths', {'op': 'p', 'data': d})
+            R.add('lying-lengths', {'op': 'p', 'data': d, 'fds': fds})
         for d in resign(raw, rng, 6 if thorough else 2):
             R.add('hostile-message-signature', {'op': 'p', 'data': d})
         if len(R.pending) > 3000:
@@ -928,6 +1183,13 @@ def run(ctx):
             R.add('hostile-message-signature', {'op': 'p', 'data': raw_message([f_path, f_member, f_sig_g(sig)], body)})
     R.flush()
 
+    # the scaling shapes at 6 KB, compared with the model (larger ones are oracle-only: the list-based model is quadratic)
+    for shape in SCALING_SHAPES:
+        for fault in (False, True):
+            c = scaling_case(shape, 6144, fault)
+            R.add('hostile-signatures' if c['op'] == 'u' else 'hostile-message-signature', c)
+    R.flush()
+
     # ---- hostile signatures as body signature of a message
     for raw in hostile_messages(rng, thorough):
         R.add('hostile-message-signature', {'op': 'p', 'data': raw})
@@ -941,6 +1203,13 @@ def run(ctx):
                 R.add('huge-lengths', {'op': 'u', 'sig': sig, 'le': le, 'off': 0, 'data': w})
                 R.add('huge-lengths', {'op': 'u', 'sig': sig, 'le': le, 'off': 0, 'data': w + b'\0' * 4 + w + b'\1' * 24})
                 R.add('huge-lengths', {'op': 'u', 'sig': sig, 'le': le, 'off': 0, 'data': w + w + w + w})
+    for sig in ('h', 'ah', 'a(yh)', 'a{sh}', '(h)'):          # a descriptor index far beyond any descriptor list
+        for lv in (0xffffffff, 0x7fffffff, 0x04000000, 5, 1, 0):
+            for fds in ([], [4], [4, 5, 6], None):
+                w = struct.pack('<I', lv)
+                R.add('huge-lengths', {'op': 'u', 'sig': sig, 'le': True, 'off': 0, 'fds': fds, 'data': w})
+                R.add('huge-lengths', {'op': 'u', 'sig': sig, 'le': True, 'off': 0, 'fds': fds,
+                                       'data': struct.pack('<I', 8) + b'\0' * 4 + w + w + w})
     for raw in (raw_message([f_path, f_member, f_sig_g('ay')], struct.pack('<I', 0xffffffff) + b'\0' * 8, bodylen=0xffffffff),
                 raw_message([f_path, f_member, f_sig_g('s')], struct.pack('<I', 0xffffffff) + b'ab\0'),
                 raw_message([f_path, f_member, f_sig_g('as')], struct.pack('<II', 0xfffffff0, 0xffffffff)),
@@ -962,11 +1231,18 @@ def run(ctx):
             R.flush()
     R.flush()
 
+    # ---- scaling: n vs 4n (oracle only)
+    R.scaling([16384] if not thorough else [65536, 262144], with_cpu=thorough)
+
 
 def replay(ctx, data):
     from txdbus import marshal, message
     global HEADER_LEN
     HEADER_LEN = len(message._headerFormat)
     R = Runner(ctx, marshal, message)
+    if data['input'].get('op') == 'import':
+        return recursion_limit_check(ctx)
+    if 'scaling' in data['input']:
+        return R.scaling([data['input']['n']], True)
     R.add(data.get('stream', 'replay'), case_from_json(data['input']))
     R.flush()
